@@ -96,7 +96,17 @@ def rule_hitratio(ctx):
     st = [m for m in s.by_kind("mutate") if m.how == "setitem" and m.root is not None]
     need(st, "C01.HITRATIO", "compute_num_true_positives: per-frame store not found")
     for m in st:
-        outer = resolve_ite_free(m.val)
+        val = m.val
+        if val.op == "comp" and val.a[0] == "list" and len(val.a[2]) == 1 and not val.a[3]:
+            # the per-frame counts collected by a comprehension over zip(ref_freqs, est_freqs) and stored as a block
+            val = val.a[1]
+        outer = []
+        for x0 in resolve_ite_free(val):
+            # len(a if c else b) is (len(a) if c else len(b))
+            if x0.op == "call" and call_name(x0) == "builtins.len" and len(x0.a[1]) == 1 and x0.a[1][0].op == "ite":
+                outer += [tm.call(x0.a[0], (y0,), x0.a[2]) for y0 in resolve_ite_free(x0.a[1][0])]
+            else:
+                outer.append(x0)
         mes = []
         good = True
         for x in outer:
